@@ -7,14 +7,22 @@
                    search line / ray; exactly when wolfecubic reads unassigned memory; BFGS: the update keeps symmetry and
                    (y's > 0) positive definiteness, reset as coded, descent direction and monotone steps without hypothesis;
                    whole-run monotonicity for non-ascent direction rules, box feasibility for direction rules with x + d
-                   feasible, save/restore completeness of the line-search base + CG + BFGS, repaired SteepestDescent list),
+                   feasible, save/restore completeness of the line-search base + CG + BFGS, repaired SteepestDescent list;
+                   L-BFGS: history update rules, two-loop recursion = the matrix of the stored BFGS inverse updates, symmetric
+                   positive definite, descent, monotone steps; box direction keeps x + d in the box for every input, box runs
+                   feasible; Adam / Rprop: state consistency, step sizes positive and (unconstrained) in [minDelta, maxDelta],
+                   iRprop+ takes back the sign-changed coordinates after an increase, member lists of L-BFGS / Adam / Rprop
+                   complete; CG: exact characterisation of its ascent directions, monotone on objectives convex along rays),
                    axiom-free over Q
   correspondence   extracted Q-model vs the real code compiled from /repo on generated dyadic quadratics: exact
                    equality while every floating-point operation of the objective was exact (harness: FE_INEXACT +
                    mantissa-length watch), 1e-9 relative afterwards.  Classes: harness subclass of
-                   AbstractLineSearchOptimizer (direction -gradient), CG, BFGS (matrix included, 2-3 steps), first step of
-                   L-BFGS (also with box: feasibility halving of init, forced backtracking), SteepestDescent; save/restore
-                   inside the histories.  Single LineSearch::operator() calls (Dlinmin / WolfeCubic / Backtracking) on a
+                   AbstractLineSearchOptimizer (direction -gradient), CG, BFGS (matrix included, 2-3 steps), L-BFGS with and
+                   without box (history, m_bdiag, direction; while the exact rationals stay below 200 bits), SteepestDescent;
+                   save/restore inside the histories.  One-step replays: every single step of every L-BFGS / Adam / Rprop
+                   history is recomputed from the implementation's own previous (complete, private) state by the generic
+                   model functions instantiated with doubles (L-BFGS direction 1e-10, history exact; Adam / Rprop bitwise or
+                   1e-10; Rprop also by the rational instance).  Witness inputs of the `_refuted` Examples run on the C++.  Single LineSearch::operator() calls (Dlinmin / WolfeCubic / Backtracking) on a
                    hooked hash-valued objective: the code runs first, its evaluation log becomes the oracle of the
                    extracted model, point / value / derivative and the number of trials must agree exactly.
   spec monitors    every anchored class (SteepestDescent, Adam, CG, BFGS, L-BFGS, Rprop variants; line searches
@@ -126,6 +134,8 @@ REGRESSION_HISTORIES = [
 WITNESS_HISTORIES = [
     (["I RPROP 0 quad 2 | 2 0 0 4 | 1 1/2 | 4 -2 | 1 1 1 4 |  | ", "S", "S", "S"], "val", [[21.0], [7.0], [89.0], [36.0]], "C10_ex_irprop_plus_stale_step"),
     (["I RPROP 0 boxquad 1 | 0 | 1 | 1/2 | 1 1 1 1 1 1 | 0 | 1", "S"], "delta", [[1.0], [0.5]], "C10_ex_rprop_box_delta_below_min_refuted"),
+    # CG, Backtracking, indefinite quadratic: g'd after init (descent) and after the first step (ASCENT: 993005/48224), 1e-12
+    (["I CG 2 quad 2 | -1 1/2 1/2 -1/2 | -3/2 1/2 | 1/2 -4 |  |  | ", "S"], "gd", [[-4.0625], [round(993005 / 48224, 9)]], "C10_ex_cg_ascent_direction_refuted"),
 ]
 
 def gen_exact(rng):
@@ -536,7 +546,7 @@ def build_replays(cases, io):
     whose predecessor printed a state: the step is replayed by the model's updateHist + direction rule from the
     IMPLEMENTATION's own previous history; y and s are recomputed here with the same two floating-point subtractions"""
     reps = []
-    for ci, c in enumerate(cases):
+    for ci, c in enumerate(cases[:len(io)]):      # (the search after a broken correspondence appends cases that were run separately)
         t = c[0].split()
         if t[0] != "I" or t[1] not in ("LBFGS", "ADAM", "RPROP"): continue
         out, rc, _ = io[ci]
@@ -682,7 +692,10 @@ def main():
     ck.trusted = DEFAULT_TRUSTED + [
         "harness/c10_opt.cpp: objective functions (quadratic, Rosenbrock, box variants via BoxConstraintHandler), a 4-line subclass of AbstractLineSearchOptimizer with direction -gradient, read access to protected members through pointers to members",
         "exact-regime detection: FE_INEXACT around every objective evaluation + at most 40 significant bits in every printed state number; the one always-inexact library operation (c1*t*gtd in the Armijo test, c1 = 1e-4) can only matter when the decrease equals 1e-4 of the linear prediction to 1e-16",
-        "not modelled: the numerics of Dlinmin / WolfeCubic (interpolation, Brent and golden-section steps are an oracle replayed from the code's evaluation log), the L-BFGS direction rule (incl. the box dog-leg), Adam, Rprop (monitored only)",
+        "not modelled: the numerics of Dlinmin / WolfeCubic (interpolation, Brent and golden-section steps are an oracle replayed from the code's evaluation log)",
+        "harness/c10_opt.cpp reads the private members of LBFGS / Adam / Rprop through explicit template instantiations (struct Rob) and prints them; tools/c10.py recomputes y = derivative - lastDerivative and s = point - lastPoint of an L-BFGS step with the same two double subtractions",
+        "one-step replays: ocaml/c10_driver.ml instantiates the extracted generic functions (C10Gen.v, C10AdamRprop.v: ops record) with OCaml doubles (+. -. *. /. sqrt **, comparisons) and, for Rprop, also runs the rational instance on the exactly converted doubles; the objective oracles of a replayed step return the value / derivative the implementation printed after that step (their consistency with the objective is the job of the monitors); multB's sqrt normalisation of the rows of A is not modelled (it cancels in A'A)",
+        "tolerance of the replayed L-BFGS direction: 1e-10 * max(|d|_inf, |g|_inf / m_bdiag); steps with |y's - 1e-10| <= 1e-13 sum|y_i s_i| are counted as threshold-rounding-sensitive and skipped; Rprop steps where only the rational instance differs and the new point is within 1e-9 of a widened bound are counted as rounding-sensitive",
         "hooked objective of the single line-search calls: value/gradient = hash of the bit patterns of the evaluated point, implemented twice (harness/c10_opt.cpp struct Hooked, ocaml/c10_driver.ml hooked); points are 0 + t*d with d[i] = +-2^k, hence computed without rounding; the step length of an evaluation is read as x[j]/d[j]",
         "rounded comparisons of the library with an always-inexact product (c1*t*gtd, c2*gtd) are recomputed in Python in floating point and exactly; calls where the two disagree are skipped (counted under rounding-sensitive)",
         "stack-content dependence is exposed by running every single line-search call twice after filling 64 KiB of stack with 0xFF bytes resp. the double -1e300",
@@ -692,6 +705,7 @@ def main():
         "harness/c10_findings.txt: regression inputs of the repaired wolfecubic defect (fix 1272c59f: linear objectives, all 25 expansions succeed) and the dlinmin backward-step demonstration are part of every run; REGRESSION_HISTORIES: BFGS / CG / L-BFGS with WolfeCubic on the linear objective -b'x",
         "objectives from the generated family: strictly convex quadratics 0.5x'Ax-b'x (n <= 6, condition <= 1e4; dyadic entries n <= 4 for the exact comparison), Rosenbrock-type sum p(x[i+1]-x[i]^2)^2+(1-x[i])^2 with p in {1,10,100}, box-constrained variants (BoxConstraintHandler, start inside or on the boundary)",
         "box-constrained objectives only with the optimizers that announce CAN_SOLVE_CONSTRAINED (LBFGS, Rprop); the others reject them in checkFeatures",
+        "L-BFGS case-split streams (gen_lbfgs): n <= 6, m_numHist in {1,2,3,5}, histories of m_numHist + 1..4 single steps, quadratics of condition <= 100 scaled by 2^-8..2^-16 (tiny y's) or with one negative eigenvalue (y's < 0; 2-4 backtracking steps), boxes of width <= 3 around the start with 30% of the coordinates on a bound, box-Rosenbrock; Rprop / Adam streams (gen_rprop): n <= 5, 4-14 single steps, initial step size 0.01..2, minDelta / maxDelta within a factor 100 of it in half of the cases, all flag combinations, Adam eta <= 0.5; m_numHist and the Rprop parameters are not changed between two steps",
         "SteepestDescent learning rate <= 0.9/lambda_max (otherwise plain gradient descent diverges by design); Adam eta <= 0.1",
         "fresh instance of save/restore = default-constructed object of the same class, init-ed on the same objective at another point and stepped twice (LineSearch keeps a pointer to the objective that cannot be archived)",
         "minimiser reached = max-norm error <= 1e-4 (1 + |x*|) within budget(): 200 steps; L-BFGS with history < n: 200 + cond/5; CG or short-history L-BFGS with the backtracking line search: 100*cond+200 (they degenerate to restarted steepest descent)",
@@ -800,7 +814,8 @@ def main():
     if not ck.replay:
         for wc, key_, want, name_ in WITNESS_HISTORIES:
             ci = next(i for i, c in enumerate(cases) if c == list(wc))
-            got = [fvec(kv(o)[key_]) if key_ in kv(o) else None for o in io[ci][0]]
+            if key_ == "gd": got = [[round(sum(a * b_ for a, b_ in zip(fvec(kv(o)["der"]), fvec(kv(o)["sdir"]))), 9)] for o in io[ci][0]]
+            else: got = [fvec(kv(o)[key_]) if key_ in kv(o) else None for o in io[ci][0]]
             ck.oblige("the C++ reproduces the witness %s of Properties_C10.v (%s along `%s`: %s)" % (name_, key_, wc[0][:60], want), got == want,
                       "" if got == want else "the implementation gives %s: the code changed, the model and the Example must follow" % got)
     mon = {}      # key -> list of (case index, message)
